@@ -10,7 +10,7 @@ use crate::refm::*;
 use crate::temporal::{Iv, day_interval, ts_interval};
 use arrow_arith::numeric;
 use arrow_array::types::*;
-use arrow_array::{Array, ArrowPrimitiveType, PrimitiveArray, Scalar};
+use arrow_array::{ArrowPrimitiveType, PrimitiveArray, Scalar};
 use arrow_buffer::{IntervalDayTime, IntervalMonthDayNano};
 use arrow_schema::{DataType, IntervalUnit, TimeUnit};
 use std::sync::Arc;
